@@ -150,6 +150,16 @@ func interopCase(t *testing.T, r *rig.Rig, g func(string) string) engine.Result 
 		if differs && expect == mustReject {
 			expect = either
 		}
+		// The helper was given the key id under which the storage holds this very key for the
+		// client. If its output names no (or another) key id, the provider cannot find the key;
+		// what was asked for satisfies the statement, so the helper's output must be accepted.
+		// (RSA / P-256 keys only: for the others the algorithm is outside the accepted list.)
+		if p.kid != k.kid && expect == either && rule == "signed-by-iss-key-but-kid-names-none" && registry[k.id][k.kid] == k.fixture {
+			switch g("key") {
+			case "ec-pkcs8", "rsa-pkcs8", "rsa-pkcs1", "ec-sec1", "svc-rsa", "B-ec-pkcs8":
+				expect = mustAccept
+			}
+		}
 		rule = hrule + ":" + rule
 		if differs || unlisted {
 			rule = hrule + ":output-not-as-asked"
